@@ -17,7 +17,7 @@ from typing import (
 )
 
 from pdfminer import settings
-from pdfminer.casting import safe_float, safe_rect_list
+from pdfminer.casting import safe_float, safe_matrix, safe_rect_list
 from pdfminer.cmapdb import (
     CMap,
     CMapBase,
@@ -1085,13 +1085,29 @@ class PDFType3Font(PDFSimpleFont):
         if "FontDescriptor" in spec:
             descriptor = dict_value(spec["FontDescriptor"])
         else:
-            descriptor = {"Ascent": 0, "Descent": 0, "FontBBox": spec["FontBBox"]}
+            descriptor = {
+                "Ascent": 0,
+                "Descent": 0,
+                "FontBBox": spec.get("FontBBox"),
+            }
         PDFSimpleFont.__init__(self, descriptor, widths, spec)
-        self.matrix = cast(Matrix, tuple(list_value(spec.get("FontMatrix"))))
+        self.matrix = self._parse_font_matrix(spec)
         (_, self.descent, _, self.ascent) = self.bbox
         # horizontal displacement of (1, 0) and vertical displacement of (0, 1)
         (self.hscale, _) = apply_matrix_norm(self.matrix, (1, 0))
         (_, self.vscale) = apply_matrix_norm(self.matrix, (0, 1))
+
+    @staticmethod
+    def _parse_font_matrix(spec: Mapping[str, Any]) -> Matrix:
+        """Parse FontMatrix, the mapping from glyph space to text space"""
+        font_matrix = [resolve1(v) for v in list_value(spec.get("FontMatrix"))]
+        matrix = safe_matrix(*font_matrix) if len(font_matrix) == 6 else None
+        if matrix is None:
+            log.warning(
+                f"Could not get FontMatrix from font because {font_matrix!r} cannot be parsed as 6 floats"
+            )
+            return 0.001, 0.0, 0.0, 0.001, 0.0, 0.0
+        return matrix
 
     def __repr__(self) -> str:
         return "<PDFType3Font>"
